@@ -30,9 +30,24 @@ Arguments Fuel {A}.
 Definition bind {A B} (r : res A) (f : A -> res B) : res B :=
   match r with Ok a => f a | Err e => Err e | Panic => Panic | Fuel => Fuel end.
 
-(* Go: [x, err := f(); if err != nil { return E }] *)
+(* the errors that mean "a declared length or a fixed-size field reaches past the supplied bytes" *)
+Definition is_bounds (e : err) : bool :=
+  match e with
+  | EOffsetUintOutOfRange | EOffsetBytesOutOfRange | EOffsetByteOutOfRange | EOffsetBoolOutOfRange
+  | EEOF | EShortRead => true
+  | _ => false
+  end.
+
+(* Go: [x, err := f(); if err != nil { return E }]  (or fmt.Errorf("%s: %w", err, E)).  Only the class
+   "error" is compared with the implementation; the model keeps an out-of-bounds cause visible under
+   the wrapping so that the engine can tell "rejected because a length exceeds the input" apart *)
 Definition bind_err {A B} (r : res A) (e : err) (f : A -> res B) : res B :=
-  match r with Ok a => f a | Err _ => Err e | Panic => Panic | Fuel => Fuel end.
+  match r with
+  | Ok a => f a
+  | Err e0 => Err (if is_bounds e0 then e0 else e)
+  | Panic => Panic
+  | Fuel => Fuel
+  end.
 
 Notation "'let*' x ':=' r 'in' k" := (bind r (fun x => k))
   (at level 200, x pattern, r at level 100, k at level 200, right associativity).
